@@ -19,7 +19,7 @@ import random
 from vlib import *
 
 HARD = {"HFinished", "HNotEarlyInt", "HInterruptedIfBlocked", "HVerdictBlocked", "HVerdictEarly",
-        "HVerdictBoundary", "HNoChildLeft"}
+        "HVerdictBoundary", "HNoChildLeft", "HNotEarlyTimeout"}
 SMIN = 150            # ms; the slack of a record is SMIN + 3 * (largest scheduling delay measured during its run) + spawn baseline
 JIT_LIMIT = 120       # ms; a run during which a 5 ms sleep overshot by more than this is not judged (machine too busy)
 TICK = 25             # ms per tick of the L2 model (GMinT = 4)
@@ -191,6 +191,8 @@ def observed(rec):
     got as far as its first stamp (e.g. started so late that the interrupt hit it before its signal handler existed), or when
     the helper - which beats every 5 ms - was silent for long, in the middle or at the end of its life: a stalled helper
     looks exactly like one that was not interrupted."""
+    if early_timeout(rec):
+        return True       # reported as timed out before the interrupt was due: load only delays things, and no helper is needed to see it
     if rec["jit"] > JIT_LIMIT or rec["start"] < 0:
         return False
     lim = 40 + 3 * rec["jit"]
@@ -199,6 +201,11 @@ def observed(rec):
     if not rec["hung"] and not rec["alive"] and rec["done"] - rec["last"] > lim + 20:
         return False
     return True
+
+
+def early_timeout(rec):
+    g = max(100, rec["D"] // 20)
+    return (not rec["hung"]) and rec["msg"] == "timedout" and 0 <= rec["done"] and rec["done"] + 10 < max(0, rec["D"] - 2 * g)
 
 
 def case_of(rec):
@@ -308,6 +315,7 @@ def explain(law, r):
         "HVerdictEarly": "command that finished at %d ms was signalled at %d / reported %s/%s" % (r["selfexit"], r["sig"], r["verdict"], r["msg"]),
         "HVerdictBoundary": "reported %s/%s, neither its own verdict nor timed out" % (r["verdict"], r["msg"]),
         "HNoChildLeft": "child pid %d still alive after the run" % r["pid"],
+        "HNotEarlyTimeout": "reported as timed out at %d ms, before the interrupt was due (two grace periods before the deadline)" % r["done"],
         "SIntOnTime": "interrupt at %d ms, later than two grace periods before the deadline + slack %d" % (r["sig"], r["s"]),
         "SKillOnTime": "ignoring child last alive at %d ms (interrupt at %d), not killed one grace period later (+ slack %d)" % (r["last"], r["sig"], r["s"]),
         "SKillNotBeforeGrace": "ignoring child interrupted at %d ms was last alive at %d ms: killed before the grace period was over" % (r["sig"], r["last"]),
